@@ -554,6 +554,15 @@ func (s *Scheme) Sign(c context.Context, msgHash []byte, topic string) ([]byte, 
 		return nil, err
 	}
 
+	// Whatever the outcome, no state of this session may survive the call.
+	defer func() {
+		cancel()
+		cleanup()
+		s.lock.Lock()
+		delete(s.syncsInProgress, string(hash(topicHash)))
+		s.lock.Unlock()
+	}()
+
 	go func() {
 		if err := sync.Synchronize(ctx, initializeSigningInstance, topicHash, s.Threshold+1, SyncInterval); err != nil {
 			// suppress error in case we signed successfully
